@@ -341,6 +341,10 @@ def jacobi_sum_clenshaw(s, alpha, beta, x, alphas=None):
     alphas = _initialize_alphas(s, x, alphas)
     M = len(s) - 1
     alphas[M] = s[M]
+    if M == 0:
+        # a single term, s0 * P0: the recurrence has nothing to descend through
+        return alphas[0]
+
     a, b, c = recurrence_abc(M-1, alpha, beta)
     alphas[M-1] = s[M-1] + (a * x + b) * s[M]
     for n in range(M-2, -1, -1):
